@@ -74,7 +74,20 @@ class Closure:
         self.interp = interp
 
     def __call__(self, *args, **kwargs):
-        return self.interp.call(self.node, list(args), kwargs, closure_env=self.env)
+        dv = self.__dict__.get("dvals")
+        if dv is None:
+            # the defaults of this function object: evaluated once, in the defining environment, and shared by all its calls
+            dv = {}
+            a = self.node.args
+            for dx in list(a.defaults) + [k for k in a.kw_defaults if k is not None]:
+                if isinstance(dx, ast.Constant):
+                    continue
+                try:
+                    dv[id(dx)] = self.interp.eval(dx, self.env if self.env is not None else self.interp.globals)
+                except (AnalysisError, Raised):
+                    pass
+            self.dvals = dv
+        return self.interp.call(self.node, list(args), kwargs, closure_env=self.env, default_values=dv)
 
 
 class EagerGen(list):
@@ -319,7 +332,9 @@ class Interp:
 
     # ------------------------------------------------------------------ calls
     def call(self, fn: ast.FunctionDef | ast.Lambda, args: list, kwargs: dict | None = None,
-             closure_env: dict | None = None):
+             closure_env: dict | None = None, default_values: dict | None = None):
+        """default_values: the function object's own default values {id(default expr): value}, evaluated once (Python
+        evaluates defaults when the function is defined: a mutable default is shared by every call)"""
         kwargs = kwargs or {}
         a = fn.args
         if a.posonlyargs:
@@ -339,7 +354,7 @@ class Interp:
             if ko.arg in kwargs:
                 env[ko.arg] = kwargs.pop(ko.arg)
             elif kd is not None:
-                env[ko.arg] = self.eval(kd, env)
+                env[ko.arg] = default_values[id(kd)] if default_values is not None and id(kd) in default_values else self.eval(kd, env)
             else:
                 raise Raised("TypeError", (f"missing keyword-only argument {ko.arg}",))
         if a.kwarg:
@@ -360,7 +375,8 @@ class Interp:
             if n in kwargs:
                 env[n] = kwargs[n]
             elif i >= first_default:
-                env[n] = self.eval(defaults[i - first_default], env)
+                dx = defaults[i - first_default]
+                env[n] = default_values[id(dx)] if default_values is not None and id(dx) in default_values else self.eval(dx, env)
             else:
                 raise Raised("TypeError", (f"missing argument {n}",))
         stack = self.__dict__.setdefault("call_stack", [])
